@@ -135,8 +135,12 @@ def sig_fn(tname, label, key, bad):
     wrong exactly on the zero-trip input (n=0) share one mechanism-level
     signature per transformation; everything else is identified by the
     specific (transformation, target, options, program, failing inputs)."""
-    if bad == ["n=0"] and tname in ("HoistTrans", "ReplaceInductionVariablesTrans"):
-        return f"{tname}|moved-assignment-executes-for-zero-trip-loop(only n=0 wrong)"
+    # inputs on which some loop of the program has zero trips: n=0, and n=1
+    # for the header "2..n" (key tag up2n)
+    zero_trip = {"n=0"} | ({"n=1"} if "up2n" in key else set())
+    if set(bad) <= zero_trip and \
+            tname in ("HoistTrans", "ReplaceInductionVariablesTrans"):
+        return f"{tname}|moved-assignment-executes-for-zero-trip-loop(only zero-trip inputs wrong)"
     return f"{label}|{key}|bad@{','.join(bad)}"
 
 
